@@ -164,7 +164,7 @@ def run_history(case):
                         fresh_err = "cap"
                     except Exception as fe:   # noqa
                         fresh_err = type(fe).__name__
-                    if fresh_err == type(err).__name__:
+                    if fresh_err == "cap" or fresh_err == type(err).__name__:
                         obs["ops"][-1] = "synth:fresh-fails-too"
                         exps.pop(op["out"], None)
                         continue
